@@ -14,6 +14,8 @@ step size / number of paths, every binding used after the later ones were made (
 the grid of ITS derivative (predicate), and answers the model's feature / features queries of its derivative (op "grid_sys").
 forward-start options with maturity and start on / off the grid: step count and the observed strike-fixing grid point vs op "grid"
 (n_shipped, start_shipped / start_exact); predicate: payoff by hand from the simulated prices at index floor(start/dt).
+hedge VALUES: compute_hedge[:, h, i] = model output h on the features of grid step i (1-3 hedging instruments, both evaluation branches);
+payoffs by hand from ALL grid points 0..T-1 of the spot buffer (every option type, calls and puts, T = 1, extreme at the first point).
 """
 import math
 from fractions import Fraction as F
@@ -996,6 +998,283 @@ def check_forward_start_grid(ctx, torch, I, g):
             ctx.disagree("forward_start_index_exact", case, want, mo["start_exact"], note="exact start index of the model vs the harness' reading")
 
 
+# ---------------------------------------------------------------------------------------------------------------------------
+# the VALUES of the hedge, step by step: Hedger.compute_hedge(derivative, hedge)[:, h, i] is the model's output number h on the
+# features of grid step i (Hedger.get_input(derivative, i): time to maturity (T-1-i)*dt, the prices of column i) for every step
+# i <= T-2, and the position of step T-2 is held over the last step - with ONE and with SEVERAL hedging instruments (a list of
+# primaries simulated over the same horizon, or the default: all underliers of a user derivative with 2-3 underliers), with models
+# that are not symmetric in their outputs (Linear / a small tanh network with dyadic weights drawn from g), with state-independent
+# inputs only (the all-steps-at-once evaluation) and with 'prev_hedge' among the inputs (the step-by-step evaluation: the input of
+# step i is the features of step i next to the hedge of step i-1, zeros at step 0).  Whole and fractional M/dt; a fixed list is part
+# of every run.  Tolerance: the model is evaluated on one (N, T-1, F) batch by the hedger and on (N, 1, F) slices here - the same
+# sums of at most 8 products of magnitude <= 8, possibly in another order: 1e-5 (single) / 1e-13 (double) times (1 + |value|).
+# The same scenarios are sent to the model of the system of instruments (op "grid_sys", hedge with several instruments).
+
+HV_FEATS = ["log_moneyness", "time_to_maturity", "moneyness", "volatility", "max_moneyness", "underlier_spot"]
+HV_PRIMS = ["BrownianStock", "BrownianStock", "HestonStock", "MertonJumpStock", "KouJumpStock", "LocalVolatilityStock"]
+
+
+def hv_corpus():
+    """(dt, M/dt, H, form, features, state-dependent): part of every run"""
+    out = []
+    for dt, r in [(1 / 250, 7), (0.1, 2.5), (1 / 12, 3), (1 / 365, 4.5), (1 / 250, 1), (0.01, 10.25)]:
+        for H in (1, 2, 3):
+            out.append((dt, r, H, "hedge_list", ["log_moneyness", "time_to_maturity"], False))
+        out.append((dt, r, 2, "underliers", ["moneyness", "time_to_maturity", "volatility"], False))
+        out.append((dt, r, 2, "hedge_list", ["log_moneyness", "time_to_maturity"], True))
+    return out
+
+
+def check_hedge_values(ctx, torch, I, g, gtraces):
+    from pfhedge.nn import Hedger, Naked
+    from pfhedge.features import FeatureList
+    from pfhedge.instruments import BaseDerivative
+    from pfhedge.instruments.derivative.base import OptionMixin
+
+    class Basket(BaseDerivative, OptionMixin):
+        """a user derivative on several underliers (the first one under the name `underlier`)"""
+
+        def __init__(self, prims, maturity, strike):
+            super().__init__()
+            for n_, p_ in zip(("underlier", "second", "third"), prims):
+                self.register_underlier(n_, p_)
+            self.maturity, self.strike, self.call = maturity, strike, True
+
+        def payoff_fn(self):
+            return torch.relu(self.ul().spot[..., -1] - self.strike)
+
+    cases = [(c, True) for c in hv_corpus()]
+    for _ in range(24 if ctx.tier == "quick" else 400):
+        dt = g.choice(DTS)
+        r = g.choice([1, 2, 3, 5, 8, 13]) + g.choice([0, 0, 0.5, 0.25])
+        nf = g.choice([2, 2, 3])
+        fs = ["time_to_maturity"] + [g.choice(HV_FEATS) for _ in range(nf - 1)]
+        if g.chance(0.3):
+            fs = fs[::-1]
+        cases.append(((dt, r, g.choice([1, 2, 2, 3, 3]), g.choice(["hedge_list", "hedge_list", "underliers"]), fs, g.chance(0.3)), False))
+    for (dt, r, H, form, feats, dep), fixed in cases:
+        m = r * dt
+        dtype = g.choice([None, None, torch.float64])
+        N = g.choice([1, 2, 5])
+        strike = g.choice([1.0, 0.9, 1.1])
+        prims = [make_primary(I, torch, "BrownianStock" if fixed and j == 0 else g.choice(HV_PRIMS), dt, dtype) for j in range(H)]
+        opt = g.choice(OPTS)
+        net = g.choice(["linear", "linear", "tanh_net"])
+        case = {"hedge_values": True, "dt": dt, "M": m, "M/dt": r, "n_hedges": H, "form": form, "features": feats, "prev_hedge": dep,
+                "primaries": [type(p_).__name__ for p_ in prims], "option": opt if form == "hedge_list" else "user derivative on all of them",
+                "dtype": str(dtype), "n_paths": N, "strike": strike, "model": net, "corpus": fixed}
+        ctx.case(case, True, tag="hedge_values")
+        ctx.traces += 1
+        ctx.stats[f"hedge_values:H={H}:{'step-by-step' if dep else 'all-at-once'}"] += 1
+        tr = GTrace(case, "hedge_values")
+        if form == "hedge_list":
+            d = getattr(I, opt)(prims[0], strike=strike, maturity=m)
+            tr.deriv(d, [("underlier", prims[0])], True, pk="arith" if opt in ("EuropeanOption", "LookbackOption") else "indicator")
+            order = list(range(H))
+            if g.chance(0.4):
+                order = order[::-1]            # the underlier of the derivative need not be the first hedging instrument
+            hedge = [prims[j] for j in order]
+        else:
+            d = Basket(prims, m, strike)
+            tr.deriv(d, list(zip(("underlier", "second", "third"), prims)), True)
+            hedge = None
+        for p_ in prims:
+            tr.pidx(p_)
+        st, v, _ = call_impl(d.simulate, n_paths=N)
+        if st != "ok":
+            ctx.fail("derivative.simulate raised", case, key="hedge-values:simulate:raise", detail=v)
+            continue
+        tr.deriv_sim(d, N)
+        if form == "hedge_list":
+            for p_ in prims[1:]:
+                p_.simulate(n_paths=N, time_horizon=m)
+                tr.prim_sim(p_, N, m)
+        gtraces.append(tr)
+        T = prims[0].spot.size(1)
+        if T not in expected_points(m, dt) or any(tuple(p_.spot.shape) != (N, T) for p_ in prims):
+            ctx.fail("number of simulated time points differs from ceil(M/dt)+1", case, key="primary.simulate:n_steps=ceil(M/dt+1)",
+                     detail={"shapes": [list(p_.spot.shape) for p_ in prims], "expected": sorted(expected_points(m, dt))})
+            continue
+        hj = None if hedge is None else [["prim", tr.pidx(p_)] for p_ in hedge]
+        mfeats = feats + (["prev_hedge"] if dep else [])
+        with torch.no_grad():
+            tr.ask(["hedge", tr.didx(d), {"model": "naked", "feats": mfeats, "hedge": hj}],
+                   lambda: Hedger(Naked(H), mfeats).compute_hedge(d, hedge=hedge), _shape)
+        # the model: outputs that differ from instrument to instrument and from step to step
+        n_in = len(feats) + (H if dep else 0)
+        fdt = prims[0].spot.dtype
+
+        def lin(n_out, n_inp):
+            l_ = torch.nn.Linear(n_inp, n_out).to(fdt)
+            with torch.no_grad():
+                l_.weight.copy_(torch.tensor([[float(g.dy(-2, 2, 6)) for _ in range(n_inp)] for _ in range(n_out)], dtype=fdt))
+                l_.bias.copy_(torch.tensor([float(g.dy(-1, 1, 6)) for _ in range(n_out)], dtype=fdt))
+            return l_
+        model = lin(H, n_in) if net == "linear" else torch.nn.Sequential(lin(4, n_in), torch.nn.Tanh(), lin(H, 4))
+        hedger = Hedger(model, mfeats)
+        kind = "step-by-step" if dep else "all-at-once"
+        with torch.no_grad():
+            st, unit, mut = call_impl(hedger.compute_hedge, d, hedge=hedge, watch=[("derivative", d)])
+            if mut:
+                ctx.mutated("Hedger.compute_hedge", mut, case)
+            if st != "ok" or tuple(unit.shape) != (N, H, T):
+                ctx.fail("Hedger.compute_hedge raised / is not one position per path, hedging instrument and step of the simulated grid (N, H, T)",
+                         case | {"T": T}, key=f"compute_hedge:grid:{kind}", detail=unit if st != "ok" else {"shape": list(unit.shape), "expected": [N, H, T]})
+                continue
+            tol = 1e-13 if fdt == torch.float64 else 1e-5
+            eps = _ulp_eps(prims[0].spot, T, dt)
+            base = FeatureList(feats).of(d)
+            bad = None
+            for i in range(T - 1):
+                if dep:
+                    prev = unit.new_zeros((N, 1, H)) if i == 0 else unit[:, :, i - 1].unsqueeze(1)
+                    sx, x, _ = call_impl(lambda i=i: torch.cat([base.get(i), prev], dim=-1))
+                else:
+                    sx, x, _ = call_impl(hedger.get_input, d, i)
+                if sx != "ok" or tuple(x.shape) != (N, 1, n_in):
+                    bad = ("input", i, x if sx != "ok" else list(x.shape), [N, 1, n_in])
+                    break
+                jt = feats.index("time_to_maturity") if "time_to_maturity" in feats else None
+                if jt is not None and bool(((x[:, 0, jt].to(torch.float64) - (T - 1 - i) * dt).abs() > eps).any()):
+                    bad = ("input", i, x[:, 0, jt].tolist(), (T - 1 - i) * dt)
+                    break
+                want = model(x)[:, 0, :]              # (N, H)
+                got = unit[:, :, i]
+                if not bool(((got - want).abs() <= tol * (1 + want.abs())).all()):
+                    bad = ("value", i, got.tolist(), want.tolist())
+                    break
+            if bad and bad[0] == "input":
+                ctx.fail("the input of the hedger at step i is not one time point per path carrying the time to maturity (T-1-i)*dt of the simulated grid",
+                         case | {"T": T, "step": bad[1]}, key="compute_hedge:input-grid", detail={"impl": bad[2], "expected": bad[3]})
+            elif bad:
+                ctx.fail("Hedger.compute_hedge(...)[:, h, i] is not the model's output for hedging instrument h on the features of grid step i "
+                         "(time to maturity (T-1-i)*dt" + (", next to the hedge of step i-1" if dep else "") + "): the hedge is not on the time grid "
+                         "of the underliers and the features" + (" - several hedging instruments" if H > 1 else ""),
+                         case | {"T": T, "step": bad[1]}, key=f"compute_hedge:step-values:{kind}:" + ("one-instrument" if H == 1 else "several-instruments"),
+                         detail={"hedge[:, :, i]": bad[2], "model(features of step i)": bad[3]})
+            elif T >= 2 and not torch.equal(unit[:, :, -1], unit[:, :, -2]):
+                ctx.fail("the hedge of the last step of the grid is not the position of step T-2 held until maturity", case | {"T": T},
+                         key=f"compute_hedge:last-step:{kind}", detail={"hedge[:, :, -2:]": unit[:, :, -2:].tolist()})
+
+
+# ---------------------------------------------------------------------------------------------------------------------------
+# payoffs read the WHOLE grid 0 .. T-1 of the underlier: for every built-in option (calls and puts) the payoff is recomputed by hand
+# from the spot buffer - the running maximum / minimum taken point by point from grid point 0 to grid point T-1 for the path-dependent
+# ones (lookback, American binary), the last point T-1 for the European ones - and so are the functional forms applied to the buffer
+# and the running-maximum features at the last step.  Simulated paths on every primary with a price series (whole / fractional M/dt,
+# M = 0: one time point, strikes at / around the first, the lowest and the highest point of a path) and a fixed list of hand-made
+# paths (part of every run) whose extreme sits at the first point, the last point or in between, constant paths, T = 1, 2, 3, 5.
+# The same arithmetic as the library (a comparison, or one correctly rounded subtraction and a clamp): compared exactly.
+
+PP_PRIMS = ["BrownianStock", "HestonStock", "MertonJumpStock", "KouJumpStock", "LocalVolatilityStock", "RoughBergomiStock"]
+PP_PATHS = [
+    [[1.0]], [[1.25], [0.75]],
+    [[1.0, 1.1], [1.0, 0.9]], [[1.0, 1.0], [1.2, 1.2]],
+    [[1.0, 1.1, 1.2], [1.0, 0.9, 0.8], [1.0, 1.2, 1.1], [1.0, 0.8, 0.9]],
+    [[1.0, 1.05, 1.1, 1.2, 1.15], [1.0, 0.95, 0.9, 0.8, 0.85], [1.0, 1.3, 0.7, 1.1, 1.0], [1.0, 0.7, 1.3, 0.9, 1.0],
+     [1.0, 1.01, 1.02, 1.01, 1.03], [1.0, 0.99, 0.98, 0.99, 0.97], [1.0, 1.0, 1.0, 1.0, 1.0]],
+]
+
+
+def check_path_payoffs(ctx, torch, I, g, gtraces):
+    import pfhedge.nn.functional as PF
+    from pfhedge.features import get_feature
+    FUNC = {"EuropeanOption": PF.european_payoff, "LookbackOption": PF.lookback_payoff,
+            "AmericanBinaryOption": PF.american_binary_payoff, "EuropeanBinaryOption": PF.european_binary_payoff}
+    cases = []
+    for paths in PP_PATHS:
+        for opt in OPTS:
+            for call in (True, False):
+                for strike in (1.0, 0.9, 1.1):
+                    cases.append(("hand-made", paths, opt, call, strike))
+    for _ in range(60 if ctx.tier == "quick" else 1000):
+        cases.append(("simulated", None, g.choice(OPTS[1:3] + OPTS), g.chance(0.5), None))
+    for kind, paths, opt, call, strike in cases:
+        dt = g.choice(DTS)
+        dtype = g.choice([None, torch.float64])
+        if kind == "hand-made":
+            p = I.BrownianStock(dt=dt, dtype=dtype)
+            spot = torch.tensor(paths, dtype=dtype or torch.get_default_dtype())
+            p.register_buffer("spot", spot)
+            N, T = spot.shape
+            m = (T - 1) * dt
+            d = getattr(I, opt)(p, call=call, strike=strike, maturity=m)
+            case = {"path_payoff": True, "paths": paths, "option": opt, "call": call, "strike": strike, "dt": dt, "M": m, "dtype": str(dtype)}
+        else:
+            prim = g.choice(PP_PRIMS)
+            r = g.choice([0, 1, 1, 2, 3, 5, 8, 20]) + g.choice([0, 0, 0.5])
+            if prim == "RoughBergomiStock":
+                r = max(r, 1)
+            m, N = r * dt, g.choice([1, 4, 16])
+            p = make_primary(I, torch, prim, dt, dtype)
+            d = getattr(I, opt)(p, call=call, maturity=m)
+            case = {"path_payoff": True, "primary": prim, "option": opt, "call": call, "dt": dt, "M": m, "M/dt": r, "n_paths": N, "dtype": str(dtype)}
+            st, v, _ = call_impl(d.simulate, n_paths=N)
+            if st != "ok":
+                ctx.fail("derivative.simulate raised", case, key=f"simulate:{prim}:raise", detail=v)
+                continue
+            spot = p.spot
+            T = spot.size(1)
+            if tuple(spot.shape) != (N, T) or T not in expected_points(m, dt):
+                ctx.fail("number of simulated time points differs from ceil(M/dt)+1", case, key="primary.simulate:n_steps=ceil(M/dt+1)",
+                         detail={"shape": list(spot.shape), "expected": sorted(expected_points(m, dt))})
+                continue
+            row = spot[g.randint(0, N - 1)]
+            how = g.choice(["first", "first", "lowest", "highest", "above", "below", "last"])
+            strike = {"first": float(row[0]), "lowest": float(row.min()), "highest": float(row.max()), "last": float(row[-1]),
+                      "above": float(row[0]) * 1.05, "below": float(row[0]) * 0.95}[how]
+            d.strike = strike
+            case |= {"strike": strike, "strike_at": how}
+            tr = GTrace(case, "path_payoff")
+            tr.deriv(d, [("underlier", p)], True, pk="arith" if opt in ("EuropeanOption", "LookbackOption") else "indicator")
+            tr.deriv_sim(d, N)
+            with torch.no_grad():
+                tr.ask(["ttm", 0], lambda: d.time_to_maturity(None), _shape)
+                tr.ask(["payoff", 0], lambda: d.payoff(), _shape)
+            gtraces.append(tr)
+        # by hand: point by point over the whole grid
+        hi, lo = spot[:, 0], spot[:, 0]
+        for i in range(1, T):
+            hi, lo = torch.maximum(hi, spot[:, i]), torch.minimum(lo, spot[:, i])
+        first_is_extreme = bool(((lo if not call else hi) == spot[:, 0]).any()) and T > 1
+        ref = {"EuropeanOption": spot[:, T - 1], "EuropeanBinaryOption": spot[:, T - 1]}.get(opt, hi if call else lo)
+        if opt in ("EuropeanOption", "LookbackOption"):
+            want = (ref - strike).clamp(min=0.0) if call else (strike - ref).clamp(min=0.0)
+        else:
+            want = ((ref >= strike) if call else (ref <= strike)).to(spot.dtype)
+        ctx.case(case, True, tag="path_payoff")
+        ctx.traces += 1
+        ctx.stats[f"path_payoff:{kind}:{opt}:{'call' if call else 'put'}"] += 1
+        ctx.stats[f"path_payoff:extreme-at-the-first-point={first_is_extreme}"] += 1
+        ctx.stats[f"path_payoff:T={'1' if T == 1 else '2+'}"] += 1
+        side = "call" if call else "put"
+        with torch.no_grad():
+            for via, fn in (("derivative.payoff", d.payoff), ("functional", lambda: FUNC[opt](spot, call=call, strike=strike))):
+                st, pay, mut = call_impl(fn, watch=[("derivative", d)])
+                if mut:
+                    ctx.mutated(via, mut, case)
+                if st != "ok" or tuple(pay.shape) != (N,) or not torch.equal(pay, want):
+                    ctx.fail(f"the payoff of {opt} ({side}) is not the one computed by hand from ALL points 0 .. T-1 of the underlier's grid "
+                             "(running maximum / minimum point by point for the path-dependent options, point T-1 for the European ones)"
+                             + (": it raised" if st != "ok" else ""), case | {"T": T, "via": via},
+                             key=f"payoff:full-grid:{opt}:{side}" + (":single-point" if T == 1 else ""),
+                             detail=pay if st != "ok" else {"payoff": pay.tolist()[:8], "by_hand": want.tolist()[:8], "paths": spot.tolist()[:4]})
+                    break
+            # the feature side: the running maximum up to the last step is the same maximum over the same points
+            for name in ("max_moneyness", "max_log_moneyness"):
+                st, fv, _ = call_impl(get_feature(name).of(d).get, T - 1)
+                wantf = hi / strike
+                ok = st == "ok" and tuple(fv.shape) == (N, 1, 1)
+                if ok and name == "max_moneyness":
+                    ok = torch.equal(fv[:, 0, 0], wantf)
+                elif ok:
+                    ok = bool(((fv[:, 0, 0] - wantf.log()).abs() <= 8 * 2.0 ** (-52 if spot.dtype == torch.float64 else -23) * (1 + wantf.log().abs())).all())
+                if not ok:
+                    ctx.fail(f"feature '{name}' at the last step is not the maximum over ALL points 0 .. T-1 of the underlier's grid over the strike",
+                             case | {"T": T}, key=f"feature.{name}:full-grid", detail=fv if st != "ok" else {"impl": fv.reshape(-1).tolist()[:8], "by_hand": wantf.tolist()[:8]})
+                    break
+
+
 def check(ctx):
     torch, pfhedge = import_impl()
     import pfhedge.instruments as I
@@ -1172,8 +1451,12 @@ def check(ctx):
         with torch.no_grad():
             ttm = d.time_to_maturity(None)
             ttm_last = d.time_to_maturity(T - 1)
-            pay = d.payoff()
+            stp, pay, _ = call_impl(d.payoff)
             fs = [tuple(f_.of(d).get(None).shape) for f_ in (Moneyness(), TimeToMaturity())]
+        if stp != "ok":
+            ctx.fail("the payoff of a derivative with a maturity shorter than one step raised (the grid has T = ceil(M/dt)+1 >= 1 points)",
+                     case | {"T": T}, key=f"short-maturity:payoff-raise:{opt}:{'call' if call else 'put'}", detail=pay)
+            continue
         if tuple(ttm.shape) != (n_paths, T) or tuple(pay.shape) != (n_paths,) or any(s != (n_paths, T, 1) for s in fs):
             ctx.fail("payoff / time-to-maturity / features do not use the simulated grid (maturity shorter than one step)", case,
                      key="short-maturity:grid", detail={"ttm": list(ttm.shape), "features": fs})
@@ -1293,6 +1576,8 @@ def check(ctx):
     check_mixed_histories(ctx, torch, I, g, gtraces)
     freqs, fmeta = [], []
     check_feature_steps(ctx, torch, I, g, freqs, fmeta)
+    check_hedge_values(ctx, torch, I, g, gtraces)
+    check_path_payoffs(ctx, torch, I, g, gtraces)
     # ---------- time_to_maturity replica (float64 instruments: bit-exact)
     treqs, tmeta = [], []
     for _ in range(150 if ctx.tier == "quick" else 2000):
@@ -1371,4 +1656,10 @@ def check(ctx):
              "forward-start options on 6 primaries: every pair of whole / fractional M/dt and start/dt (fixed list at dt 1/250, 1/365, 1/12, 0.1 + random, "
              "object re-used with another start / maturity): T = ceil(M/dt)+1 and the payoff fixes the strike at grid point floor(start/dt) counted "
              "from the first point (observed from the payoff against max(S[T-1]/S[j]-K,0) by hand for every j; op grid start index shipped / exact); "
+             "hedge values step by step: compute_hedge[:, h, i] = model(features of grid step i)[h] for H = 1, 2, 3 hedging instruments (list of primaries / "
+             "all underliers of a user derivative), Linear / tanh network with dyadic weights, all-at-once and prev_hedge branches, whole and fractional "
+             "M/dt (fixed list + random), last step held, also as grid_sys hedge queries with several instruments; payoffs of the 4 option types, calls "
+             "and puts, derivative and functional form, recomputed point by point from ALL grid points of the spot buffer (hand-made paths with the extreme "
+             "at the first / last / an inner point, T = 1, 2, 3, 5, + simulated paths on 6 primaries with strikes at the first / lowest / highest / last "
+             "point, M = 0 included), running-maximum features at the last step; "
              "every case is non-trivial (T>=2 for ttm); distinct = sha1 of canonical case")
